@@ -26,8 +26,10 @@
                   projection of the record fold, tombstone coverage) and the induction over
                   histories.  The tie checks (equiv) on every generated history instead.
      For snapshots OLDER than the end of the WAL (crash after a clean start, or the option
-     switched off and on again) the statement is FALSE of the code as it is:
-     C23_outdated_snapshot_refuted. *)
+     switched off and on again) the statement was FALSE of the code before the fix
+     /repo 5693077124 (model variant open_old): C23_outdated_snapshot_old_refuted.  The current
+     model (open) follows the fixed code; the outdated-snapshot case is checked by the tie
+     (histories that toggle the option) and not yet proved. *)
 From Coq Require Import List ZArith Bool Lia.
 From Verif Require Import model.Snapshot proof.SnapshotProofs.
 Import ListNotations.
@@ -141,25 +143,29 @@ Proof.
   right. eexists. split; [reflexivity|]. left. vm_compute. reflexivity.
 Qed.
 
-(* ---------------- the statement is false for an outdated snapshot ---------------- *)
+(* ---------------- outdated snapshot: false of the code BEFORE the fix ---------------- *)
 (* series 0: -300 appended, clean shutdown with snapshot; restart with the option off; -200, 0, 1
    appended, shutdown without snapshot (the old one stays on disk).  Init with the option on
-   loads the old snapshot and replays the WAL behind it: the restored memSeries has mmMaxTime = 0
-   (never set), so processWALSamples skips -200 and 0.  (With the snapshot directory removed all
-   four samples come back.)  Replayed on the real tsdb.DB by the harness corpus case
-   "outdated-snapshot-nonpositive". *)
+   loads the old snapshot and replays the WAL behind it.  Before /repo 5693077124 the restored
+   memSeries had mmMaxTime = 0 (never set), so processWALSamples skipped -200 and 0
+   ([open_old]); with the snapshot directory removed all four samples came back.  Since the fix
+   (mmMaxTime = MinInt64 in loadChunkSnapshot, [open]) both restarts agree.  The harness corpus
+   case "outdated-snapshot-nonpositive" replays this history on the real tsdb.DB as a regression
+   case. *)
 Definition stale_ops : list op :=
   [ Append 0 (-300, 1); Restart true false; Append 0 (-200, 2); Append 0 (0, 3); Append 0 (1, 4) ].
 Definition stale_d : dstate :=
   let s := run add_all stale_ops in durable s (close false s) [0].
 
-Theorem C23_outdated_snapshot_refuted :
+Theorem C23_outdated_snapshot_old_refuted :
   exists d, usable true d <> None /\ d_mm_ok d = true /\
-            query d (open add_all true d) <> query d (open add_all false d).
+            query d (open_old add_all true d) <> query d (open_old add_all false d).
 Proof.
   exists stale_d. vm_compute. repeat split; congruence.
 Qed.
 Example C23_outdated_detail :
-  query stale_d (open add_all true stale_d) = [(0, [(-300, 1); (1, 4)])] /\
-  query stale_d (open add_all false stale_d) = [(0, [(-300, 1); (-200, 2); (0, 3); (1, 4)])].
-Proof. vm_compute. split; reflexivity. Qed.
+  query stale_d (open_old add_all true stale_d) = [(0, [(-300, 1); (1, 4)])] /\
+  query stale_d (open_old add_all false stale_d) = [(0, [(-300, 1); (-200, 2); (0, 3); (1, 4)])] /\
+  query stale_d (open add_all true stale_d) = [(0, [(-300, 1); (-200, 2); (0, 3); (1, 4)])] /\
+  query stale_d (open add_all false stale_d) = query stale_d (open add_all true stale_d).
+Proof. vm_compute. repeat split; reflexivity. Qed.
